@@ -6,6 +6,7 @@
 #include <algorithm>
 #include <array>
 #include <chrono>
+#include <mutex>
 
 namespace ephemeralnet::network {
 
@@ -42,10 +43,12 @@ void KeyManager::register_session_with_material(const PeerId& peer_id,
     const auto mac = crypto::HmacSha256::compute(key_span, material);
     context.current_key = mac;
 
+    std::scoped_lock lock(mutex_);
     contexts_[peer_id_to_string(peer_id)] = context;
 }
 
 std::optional<std::array<std::uint8_t, 32>> KeyManager::current_key(const PeerId& peer_id) const {
+    std::scoped_lock lock(mutex_);
     const auto it = contexts_.find(peer_id_to_string(peer_id));
     if (it == contexts_.end()) {
         return std::nullopt;
@@ -55,6 +58,7 @@ std::optional<std::array<std::uint8_t, 32>> KeyManager::current_key(const PeerId
 
 std::optional<std::array<std::uint8_t, 32>> KeyManager::rotate_if_needed(const PeerId& peer_id,
                                                                          std::chrono::steady_clock::time_point now) {
+    std::scoped_lock lock(mutex_);
     auto it = contexts_.find(peer_id_to_string(peer_id));
     if (it == contexts_.end()) {
         return std::nullopt;
@@ -93,6 +97,7 @@ std::array<std::uint8_t, 32> KeyManager::derive_key(const crypto::Key& shared_se
 
 std::vector<PeerId> KeyManager::known_peers() const {
     std::vector<PeerId> peers;
+    std::scoped_lock lock(mutex_);
     peers.reserve(contexts_.size());
     for (const auto& [key, context] : contexts_) {
         (void)context;
